@@ -154,3 +154,11 @@ PROPS["C18"] = {
     "trusted_base": ["awareness is modelled entry by entry (coq/OpSet/Awareness.v); timestamps are excluded (injected clock)", _MODEL_NOTE],
     "modelled_not_verified": ["Protocol::handle dispatch (exercised, not modelled)", "observer events of Awareness"], "assumptions": ["each client writes only its own awareness entry (an entry for the local client id written by someone else with a higher clock is order-sensitive: model observation apply_not_commutative_local)"],
 }
+
+PROPS["C11"] = {
+    "level": "proof", "theorems": _GEN["C11"], "theorem_kinds": {"C11_change_list_is_an_exact_edit_script": "unbounded (loop invariant over event_change_set)", "C11_key_change_is_exact_with_old_and_new_value": "unbounded", "C11_text_delta_is_an_exact_edit_script": "unbounded, formatting items included", "C11_deep_path_index_resolves_to_the_target": "unbounded"},
+    "rule": "1..3 replicas (a third with GC on); EVERY reachable shared type of every replica (roots and nested types at any depth) is observed directly (observe, attached as soon as the type becomes reachable) and through observe_deep on its root; two shadow copies per type are maintained ONLY from the events (text delta with attributes in UTF-16 units, array / XML children change lists, map entry / XML attribute key changes with old-value check) and compared with the content read through the API after EVERY transaction, local or remote, in-order or out-of-order; deep event paths are compared with the position at which the target is reachable; observers fire at most once per transaction. Correspondence: inside the observer the store is dumped (hook) with the transaction's insert and delete sets; the extracted Coq transcription computes change list / key changes / text delta from the same item lists and must print the same event, its exactness statement must evaluate to true on those lists, the invariants the theorems assume (swf / kwf / twf) must hold of them, and the model's before / after content must equal what the API showed before / after. Non-trivial = a history with at least one remote transaction",
+    "trusted_base": ["coq/Crdt/Events.v is a hand transcription of event_change_set, event_keys, TextEvent::get_delta, Branch::path (tied by the per-event correspondence above)", "values are interned tokens; token equality = equality of the harness's canonical print of the value"],
+    "modelled_not_verified": ["dispatch: TransactionMut::call_observers / call_type_observers / add_changed_type and 'at most once per transaction' (checked on the implementation by the harness only)", "XmlEvent / XmlTextEvent plumbing around the three computations", "Weak link events"],
+    "assumptions": ["UTF-16 offset kind", "hypotheses swf / kwf / twf of the theorems (deleted-in-transaction implies deleted, an added item can only have been deleted by the transaction, a new last entry of a key deletes its predecessor): checked on every real item list by the harness"],
+}
